@@ -6,7 +6,7 @@ From Verif.Base Require Import F64.
 From Verif.C05 Require Proofs3.
 From Verif.C06 Require Proofs Proofs3.
 From Verif.C18 Require Import Model HashModel.
-From Verif.C18 Require Proofs.
+From Verif.C18 Require Proofs Transfer.
 
 Module P5 := Verif.C05.Proofs3.
 Module P6 := Verif.C06.Proofs3.
@@ -353,3 +353,45 @@ Proof.
            (wf_hash_respects hashTrue hashFalse hashNull hashUndef mh ptr_sym ptr_obj) wf_norm_idem).
 Qed.
 End JsOrder.
+
+(* ================================================================== *)
+(* 6. the same over plain JS values: histories all of whose keys are well-formed *)
+
+Definition op_wf {V : Type} (o : @op jsval V) : Prop :=
+  match o with
+  | OSet k _ | OGet k | OHas k | ODel k => key_wf k = true
+  | _ => True
+  end.
+
+Lemma lift_ops : forall {V : Type} (ops : list (@op jsval V)), Forall op_wf ops ->
+  exists ops' : list (@op wfkey V), ops = map (Transfer.mop kval) ops'.
+Proof.
+  intros V ops Hw. induction Hw as [|o r Ho _ IH]; [exists []; reflexivity|].
+  destruct IH as [r' Er]. subst r.
+  destruct o as [k v|k|k|k| | |n|]; simpl in Ho.
+  - exists (OSet (exist _ k Ho) v :: r'). reflexivity.
+  - exists (OGet (exist _ k Ho) :: r'). reflexivity.
+  - exists (OHas (exist _ k Ho) :: r'). reflexivity.
+  - exists (ODel (exist _ k Ho) :: r'). reflexivity.
+  - exists (OClear :: r'). reflexivity.
+  - exists (ONewIter :: r'). reflexivity.
+  - exists (ONext n :: r'). reflexivity.
+  - exists (OSize :: r'). reflexivity.
+Qed.
+
+Section Raw.
+Variables hashTrue hashFalse hashNull hashUndef : N.
+Variable mh : list N -> N.
+Variables ptr_sym ptr_obj : N -> N.
+Local Notation goja_hash := (goja_hash hashTrue hashFalse hashNull hashUndef mh ptr_sym ptr_obj).
+Local Notation wf_hash := (wf_hash hashTrue hashFalse hashNull hashUndef mh ptr_sym ptr_obj).
+
+Lemma om_refines_js_raw : forall (V : Type) (ops : list (@op jsval V)), Forall op_wf ops ->
+  snd (run (istep goja_same goja_norm goja_hash) iinit ops) = snd (run (sstep goja_same goja_norm) sinit ops).
+Proof.
+  intros V ops Hw. destruct (lift_ops ops Hw) as [ops' E]. subst ops.
+  exact (Transfer.refines_image kval wf_same wf_norm wf_hash goja_same goja_norm goja_hash
+           (fun a b => eq_refl) (fun a => eq_refl) (fun a => eq_refl)
+           (om_refines_js hashTrue hashFalse hashNull hashUndef mh ptr_sym ptr_obj V) ops').
+Qed.
+End Raw.
